@@ -32,7 +32,10 @@ theorem setEdgeMeta_inv (s : Store) (e : RawEdge) (md : Meta) (h : Inv s) : Inv 
 theorem setAttrNode_inv (s : Store) (n : Node) (a v : Nat) (h : Inv s) : Inv (setAttrNode s n a v).1 := by
   unfold setAttrNode
   split
-  · rename_i md hn; exact h.set_nmeta n _ (by simp [hn])
+  · rename_i md hn
+    split
+    · exact h
+    · exact h.set_nmeta n _ (by simp [hn])
   · exact h
 
 theorem delAttrNode_inv (s : Store) (n : Node) (a : Nat) (h : Inv s) : Inv (delAttrNode s n a).1 := by
@@ -51,7 +54,10 @@ theorem setAttrEdge_inv (s : Store) (e : RawEdge) (a v : Nat) (h : Inv s) : Inv 
   · split
     · exact h
     · split
-      · rename_i id _ _ md hm; exact h.set_emeta id _ (by simp [hm])
+      · rename_i id _ _ md hm
+        split
+        · exact h
+        · exact h.set_emeta id _ (by simp [hm])
       · exact h
 
 theorem delAttrEdge_inv (s : Store) (e : RawEdge) (a : Nat) (h : Inv s) : Inv (delAttrEdge s e a).1 := by
@@ -119,7 +125,12 @@ theorem applyOp_inv (s : Store) (o : Op) (ho : o.WF) (h : Inv s) : Inv (applyOp 
   | setNodeMeta n md => exact setNodeMeta_inv s n md h
   | setEdgeMeta e md => exact setEdgeMeta_inv s e md h
   | setHMeta md => exact h.set_hmeta md
-  | setAttrH a v => exact h.set_hmeta _
+  | setAttrH a v =>
+    show Inv (setAttrHOp s a v).1
+    unfold setAttrHOp
+    split
+    · exact h
+    · exact h.set_hmeta _
   | setAttrNode n a v => exact setAttrNode_inv s n a v h
   | setAttrEdge e a v => exact setAttrEdge_inv s e a v h
   | delAttrNode n a => exact delAttrNode_inv s n a h
